@@ -5,7 +5,7 @@ from checks import trees
 
 ID = "C20"
 LEAN_MODULES = ["Econf.Props.C20"]
-THEOREMS = []
+THEOREMS = ["Econf.C20_readFile_out", "Econf.C20_readConfig_out", "Econf.C20_history_out", "Econf.C20_merge_out"]
 SHRINK = False
 RULE = ("API call sequences of C11 and layered reads of C01/C06/C13/C16 with a failure injected at each consulted file in turn "
         "(callback rejection, foreign owner, malformed line, vanished file = dangling link) and unknown options, through all read entry "
